@@ -64,6 +64,9 @@ fn main() {
         eprintln!("binary compiled as {} but asked to report as {}", compiled, build);
         std::process::exit(64);
     }
+    if tier == Tier::Thorough {
+        FRESH_EVERY_DEFAULT.store(997, std::sync::atomic::Ordering::Relaxed);
+    }
     let ctx = Ctx { prop, tier, seed, build, workers, single };
 
     if let Err(e) = model::calendar::self_check() {
